@@ -825,6 +825,17 @@ pub fn json_diagram_sized(d: &mut Decider, large: bool) -> GSpec {
     while let Some(v) = g.verts.iter().position(|v| v.0 == 255) {
         g = g.without_vertex(v);
     }
+    // through wires: a single boundary vertex without edges that is listed both as an input and
+    // as an output (at independent positions - a crossing bare wire when the lists are shuffled)
+    if d.coin("j.through", 1, 8) {
+        for _ in 0..1 + d.choose("j.through.k", 2) {
+            let b = g.add(0, 0, 1);
+            let pi = d.choose("j.through.i", g.inputs.len() + 1);
+            g.inputs.insert(pi, b);
+            let po = d.choose("j.through.o", g.outputs.len() + 1);
+            g.outputs.insert(po, b);
+        }
+    }
     // the order of the input / output lists is independent of the vertex numbering
     if d.coin("j.ioshuffle", 1, 2) {
         let pi = d.permutation("j.iperm", g.inputs.len());
